@@ -202,7 +202,18 @@ where
                 let mut i = w as u64;
                 let mut since_compact = 0u64;
                 while i < n_runs {
-                    f(i, &mut st, &ctx);
+                    // A panic here is a bug of the harness itself (calls into generated code are
+                    // wrapped in catch_unwind by the scenarios): report it as such, never as a hang.
+                    let r = std::panic::catch_unwind(std::panic::AssertUnwindSafe(|| f(i, &mut st, &ctx)));
+                    if let Err(p) = r {
+                        let plan = ctx.watch.beats[ctx.worker].current.lock().map(|g| g.clone()).unwrap_or(None);
+                        eprintln!(
+                            "HARNESS-ERROR: harness panicked in run {i}: {}\nplan: {}",
+                            panic_message(&p),
+                            plan.map(|p| p.to_string()).unwrap_or_default()
+                        );
+                        std::process::exit(2);
+                    }
                     i += workers as u64;
                     since_compact += 1;
                     if since_compact >= 1 << 16 {
@@ -226,6 +237,9 @@ where
 
 /// Silence the default panic hook for panics that the harness catches on purpose.
 pub fn quiet_panics() {
+    if std::env::var("NUSIM_LOUD").is_ok() {
+        return;
+    }
     std::panic::set_hook(Box::new(|_| {}));
 }
 
